@@ -106,6 +106,8 @@ B('C14.list-plus-loosely-validated-field', ['C14'], [(P + 'ssh/key.py', "       
 B('C14.json-date-in-its-own-zone', ['C14'], [(P + 'common/base.py', "            result = str(Serializable._get_date_time_in_utc(obj))", "            result = str(obj)")], mention='C14.R13')
 B('C01.truth-value-field-admits-integers', ['C01'], [(P + 'ssh/subprotocol.py', "    first_kex_packet_follows = attr.ib(converter=bool, validator=attr.validators.instance_of(bool), default=False)", "    first_kex_packet_follows = attr.ib(validator=attr.validators.instance_of(six.integer_types), default=0)")], mention='C01.R13')
 B('C07.trailing-comma-in-name-list-accepted', ['C07', 'C16'], [(P + 'common/parse.py', "                if not skip_empty:\n                    # a separator at the very end is followed by an empty item\n                    raise InvalidValue(self._parsable[item_offset:], type(self), name)\n                break", "                break")], mention='empty-name')
+B('C18.media-subtype-case-kept', ['C18'], [(P + 'common/field.py', "        return FieldValueMimeType(parser['type'].lower(), parser['registry']), parser.parsed_length", "        return FieldValueMimeType(parser['type'], parser['registry']), parser.parsed_length")], mention='C18.R10')
+B('C18.media-type-registry-case-sensitive', ['C18'], [(P + 'common/field.py', "        return MimeTypeRegistry(value.lower())", "        return MimeTypeRegistry(value)")], mention='C18.R10')
 B('C02.unsupported-width', ['C02'], [(P + 'tls/extension.py', "        parser.parse_numeric('record_size_limit', 2)", "        parser.parse_numeric('record_size_limit', 5)")], props=['C02'])
 B('C02.raw-index', ['C02'], [(P + 'tls/extension.py', "        if parser['extension_data']:\n            raise InvalidValue(parser['extension_data'], cls)",
                              "        if parser['extension_data'][0]:\n            raise InvalidValue(parser['extension_data'], cls)")])
